@@ -721,3 +721,299 @@ Proof.
     + apply sx_plain. change (TInteger 31) with (TInteger (digits_val 16 [49; 102])).
       apply sp_hex; try reflexivity. cbn. unfold I64_MAX. lia.
 Qed.
+
+(* ------------------------------------------------------------------------- *)
+(* needs_space is exact: without the separator the lexer does NOT return the token with the
+   following text untouched.                                                   *)
+(* ------------------------------------------------------------------------- *)
+Lemma strip_prefix_len pre : forall s r, strip_prefix pre s = Some r -> length s = (length pre + length r)%nat.
+Proof.
+  induction pre as [| a pre IH]; intros s r H.
+  - cbn in H. injection H as ->. reflexivity.
+  - destruct s as [| b s]; [discriminate|]. cbn [strip_prefix] in H.
+    destruct (a =? b); [|discriminate]. apply IH in H. cbn [length]. lia.
+Qed.
+
+Lemma next_char_len s c r : next_char s = Some (c, r) -> (length r < length s)%nat.
+Proof.
+  unfold next_char. intros H.
+  destruct (strip_prefix [38; 97; 109; 112; 59] s) as [r1 |] eqn:E1.
+  { injection H as _ <-. apply strip_prefix_len in E1. cbn [length] in E1. lia. }
+  destruct (strip_prefix [38; 108; 116; 59] s) as [r2 |] eqn:E2.
+  { injection H as _ <-. apply strip_prefix_len in E2. cbn [length] in E2. lia. }
+  destruct (strip_prefix [38; 103; 116; 59] s) as [r3 |] eqn:E3.
+  { injection H as _ <-. apply strip_prefix_len in E3. cbn [length] in E3. lia. }
+  destruct s as [| x s]; [discriminate|]. injection H as _ <-. cbn [length]. lia.
+Qed.
+
+Lemma tw_total pr n : forall s,
+  (length (fst (take_while n pr s)) + length (snd (take_while n pr s)) <= length s)%nat.
+Proof.
+  induction n as [| n IH]; intros s; [cbn; lia|]. cbn [take_while].
+  destruct (next_char s) as [[c r] |] eqn:E; [|cbn; lia].
+  destruct (pr c); [|cbn; lia].
+  specialize (IH r). destruct (take_while n pr r) as [a b]. cbn [fst snd length] in *.
+  apply next_char_len in E. lia.
+Qed.
+
+Lemma tw_more pr cs : forall n x w r,
+  (forall c, pr c = true -> c <> 38) -> forallb pr cs = true ->
+  next_char x = Some (w, r) -> pr w = true -> (length cs < n)%nat ->
+  (length cs < length (fst (take_while n pr (cs ++ x))))%nat.
+Proof.
+  induction cs as [| c cs IH]; intros n x w r H38 Hall Hx Hw Hn.
+  - cbn [app]. destruct n as [| n]; [lia|]. cbn [take_while]. rewrite Hx, Hw.
+    destruct (take_while n pr r). cbn. lia.
+  - cbn [forallb] in Hall. apply andb_prop in Hall. destruct Hall as [Hc Hcs].
+    destruct n as [| n]; [cbn in Hn; lia|]. cbn [app take_while].
+    rewrite next_char_plain by (apply H38; exact Hc). rewrite Hc.
+    specialize (IH n x w r H38 Hcs Hx Hw ltac:(cbn in Hn; lia)).
+    destruct (take_while n pr (cs ++ x)). cbn [fst length] in *. lia.
+Qed.
+
+(* if the next decoded character also satisfies the predicate, the run eats into the following text *)
+Lemma tw_eats pr cs x w r :
+  (forall c, pr c = true -> c <> 38) -> forallb pr cs = true ->
+  next_char x = Some (w, r) -> pr w = true ->
+  (length (snd (take_while (length (cs ++ x)) pr (cs ++ x))) < length x)%nat.
+Proof.
+  intros H38 Hall Hx Hw.
+  pose proof (next_char_len _ _ _ Hx) as Hlen.
+  pose proof (tw_more pr cs (length (cs ++ x)) x w r H38 Hall Hx Hw ltac:(rewrite app_length; lia)) as Hm.
+  pose proof (tw_total pr (length (cs ++ x)) (cs ++ x)) as Ht. pose proof (app_length cs x) as E. lia.
+Qed.
+
+Section Exact.
+  Variable fops : float_ops.
+
+  Ltac kill_eqb c :=
+    repeat match goal with
+           | |- context [c =? ?k] => replace (c =? k) with false by (symmetry; apply Z.eqb_neq; lia)
+           end.
+
+  Lemma lex_ident_shape c x :
+    is_alpha c = true ->
+    lex1 fops (c :: x) =
+      (let (cs, r') := take_while (length x) is_ident_char x in Ok (Some (TIdent (c :: cs), r'))).
+  Proof.
+    intros Hc. pose proof (is_alpha_range c Hc) as Hr.
+    assert (Hnc : next_char (c :: x) = Some (c, x)) by (apply next_char_plain; lia).
+    unfold lex1. rewrite (skip_gen _ _ _ Hnc) by (apply nonspace_of_range; lia). rewrite Hnc.
+    kill_eqb c. rewrite Hc. reflexivity.
+  Qed.
+
+  Lemma lex_number_shape c x :
+    is_digit c = true -> (if c =? 48 then eat_char (Z.eqb 120) x else None) = None ->
+    lex1 fops (c :: x) =
+      (let (cs, r') := take_while (length x) is_num_char x in
+       match count_dots (c :: cs) with
+       | O => let v := digits_val 10 (c :: cs) in
+              if v <=? I64_MAX then Ok (Some (TInteger v, r')) else Panic
+       | S O => Ok (Some (TFloat (f_lit fops (c :: cs)), r'))
+       | _ => Panic
+       end).
+  Proof.
+    intros Hc Hx. pose proof (is_digit_range c Hc) as Hr.
+    assert (Hnc : next_char (c :: x) = Some (c, x)) by (apply next_char_plain; lia).
+    unfold lex1. rewrite (skip_gen _ _ _ Hnc) by (apply nonspace_of_range; lia). rewrite Hnc.
+    replace (c =? 40) with false by (symmetry; apply Z.eqb_neq; lia).
+    replace (c =? 41) with false by (symmetry; apply Z.eqb_neq; lia).
+    replace (c =? 43) with false by (symmetry; apply Z.eqb_neq; lia).
+    replace (c =? 45) with false by (symmetry; apply Z.eqb_neq; lia).
+    replace (c =? 42) with false by (symmetry; apply Z.eqb_neq; lia).
+    replace (c =? 47) with false by (symmetry; apply Z.eqb_neq; lia).
+    replace (c =? 37) with false by (symmetry; apply Z.eqb_neq; lia).
+    replace (c =? 38) with false by (symmetry; apply Z.eqb_neq; lia).
+    replace (c =? 124) with false by (symmetry; apply Z.eqb_neq; lia).
+    replace (c =? 94) with false by (symmetry; apply Z.eqb_neq; lia).
+    replace (c =? 126) with false by (symmetry; apply Z.eqb_neq; lia).
+    replace (c =? 61) with false by (symmetry; apply Z.eqb_neq; lia).
+    replace (c =? 58) with false by (symmetry; apply Z.eqb_neq; lia).
+    replace (c =? 63) with false by (symmetry; apply Z.eqb_neq; lia).
+    replace (c =? 60) with false by (symmetry; apply Z.eqb_neq; lia).
+    replace (c =? 62) with false by (symmetry; apply Z.eqb_neq; lia).
+    replace (c =? 46) with false by (symmetry; apply Z.eqb_neq; lia).
+    rewrite (digit_not_alpha c Hr). rewrite Hc. rewrite Hx. reflexivity.
+  Qed.
+
+  Lemma lex_zero_x_shape r :
+    lex1 fops (48 :: 120 :: r) =
+      (let (ds, r') := take_while (length r) is_hex r in
+       match ds with
+       | [] => Panic
+       | _ => let v := digits_val 16 ds in if v <=? I64_MAX then Ok (Some (TInteger v, r')) else Panic
+       end).
+  Proof.
+    assert (Hnc : next_char (48 :: 120 :: r) = Some (48, 120 :: r)) by reflexivity.
+    unfold lex1. rewrite (skip_gen _ _ _ Hnc) by reflexivity. rewrite Hnc.
+    cbn [Z.eqb Pos.eqb is_alpha is_digit Z.leb Z.compare Pos.compare Pos.compare_cont andb orb].
+    unfold eat_char at 1. rewrite next_char_plain by lia. cbn [Z.eqb Pos.eqb]. reflexivity.
+  Qed.
+
+  Lemma lex_dot_shape x :
+    lex1 fops (46 :: x) =
+      (let (ds, r') := take_while (length x) is_digit x in
+       match ds with
+       | [] => Panic
+       | _ => Ok (Some (TFloat (f_lit fops (46 :: ds)), r'))
+       end).
+  Proof.
+    assert (Hnc : next_char (46 :: x) = Some (46, x)) by reflexivity.
+    unfold lex1. rewrite (skip_gen _ _ _ Hnc) by reflexivity. rewrite Hnc. cbn [Z.eqb Pos.eqb]. reflexivity.
+  Qed.
+
+  Ltac start Hnc :=
+    unfold lex1; rewrite (skip_gen _ _ _ Hnc) by reflexivity; rewrite Hnc.
+
+  Lemma op_not_tight t cs x w r :
+    is_op t -> In cs (variants (op_chars t)) ->
+    next_char x = Some (w, r) -> follow_bad (t, cs) w = true -> no_entity_tail x ->
+    lex1 fops (cs ++ x) <> Ok (Some (t, x)).
+  Proof.
+    intros Ht Hin Hx Hb Hr. unfold is_op in Ht.
+    destruct t; cbn in Ht; try lia; cbn [follow_bad fst] in Hb; try discriminate; cbn in Hin;
+      repeat (destruct Hin as [<- | Hin]); try contradiction; cbn [app].
+    - (* * *)
+      assert (Hnc : next_char (42 :: x) = Some (42, x)) by (apply next_char_plain; lia).
+      start Hnc. cbn. unfold eat_char. rewrite Hx. apply Z.eqb_eq in Hb. subst w. cbn. discriminate.
+    - pose proof (raw_amp_next x Hr) as Hnc.
+      start Hnc. cbn. unfold eat_char. rewrite Hx. apply Z.eqb_eq in Hb. subst w. cbn. discriminate.
+    - assert (Hnc : next_char (38 :: 97 :: 109 :: 112 :: 59 :: x) = Some (38, x)) by reflexivity.
+      start Hnc. cbn. unfold eat_char. rewrite Hx. apply Z.eqb_eq in Hb. subst w. cbn. discriminate.
+    - assert (Hnc : next_char (124 :: x) = Some (124, x)) by (apply next_char_plain; lia).
+      start Hnc. cbn. unfold eat_char. rewrite Hx. apply Z.eqb_eq in Hb. subst w. cbn. discriminate.
+    - assert (Hnc : next_char (60 :: x) = Some (60, x)) by (apply next_char_plain; lia).
+      start Hnc. cbn. unfold eat_char. rewrite Hx.
+      destruct (62 =? w) eqn:E1; [discriminate|]. destruct (61 =? w) eqn:E2; [discriminate|].
+      destruct (60 =? w) eqn:E3; [discriminate|].
+      rewrite (Z.eqb_sym w 62), (Z.eqb_sym w 61), (Z.eqb_sym w 60), E1, E2, E3 in Hb. discriminate.
+    - assert (Hnc : next_char (38 :: 108 :: 116 :: 59 :: x) = Some (60, x)) by reflexivity.
+      start Hnc. cbn. unfold eat_char. rewrite Hx.
+      destruct (62 =? w) eqn:E1; [discriminate|]. destruct (61 =? w) eqn:E2; [discriminate|].
+      destruct (60 =? w) eqn:E3; [discriminate|].
+      rewrite (Z.eqb_sym w 62), (Z.eqb_sym w 61), (Z.eqb_sym w 60), E1, E2, E3 in Hb. discriminate.
+    - assert (Hnc : next_char (62 :: x) = Some (62, x)) by (apply next_char_plain; lia).
+      start Hnc. cbn. unfold eat_char. rewrite Hx.
+      destruct (61 =? w) eqn:E1; [discriminate|]. destruct (62 =? w) eqn:E2; [discriminate|].
+      rewrite (Z.eqb_sym w 61), (Z.eqb_sym w 62), E1, E2 in Hb. discriminate.
+    - assert (Hnc : next_char (38 :: 103 :: 116 :: 59 :: x) = Some (62, x)) by reflexivity.
+      start Hnc. cbn. unfold eat_char. rewrite Hx.
+      destruct (61 =? w) eqn:E1; [discriminate|]. destruct (62 =? w) eqn:E2; [discriminate|].
+      rewrite (Z.eqb_sym w 61), (Z.eqb_sym w 62), E1, E2 in Hb. discriminate.
+  Qed.
+
+  Lemma num_eats cs x w r :
+    forallb is_num_char cs = true -> next_char x = Some (w, r) -> is_num_char w = true ->
+    forall c, is_digit c = true -> (if c =? 48 then eat_char (Z.eqb 120) (cs ++ x) else None) = None ->
+    forall t, lex1 fops ((c :: cs) ++ x) <> Ok (Some (t, x)).
+  Proof.
+    intros Hcs Hx Hw c Hc Hz t. cbn [app]. rewrite lex_number_shape by assumption.
+    pose proof (tw_eats is_num_char cs x w r num_char_38 Hcs Hx Hw) as Hlt.
+    destruct (take_while (length (cs ++ x)) is_num_char (cs ++ x)) as [taken rest']. cbn [snd] in Hlt.
+    destruct (count_dots (c :: taken)) as [| [| n]]; try discriminate.
+    - cbv zeta. destruct (_ <=? I64_MAX); [|discriminate]. intros H. injection H as _ ->. lia.
+    - intros H. injection H as _ ->. lia.
+  Qed.
+
+  Theorem lex_not_tight t cs x w r :
+    spellx fops t cs -> next_char x = Some (w, r) -> follow_bad (t, cs) w = true -> no_entity_tail x ->
+    lex1 fops (cs ++ x) <> Ok (Some (t, x)).
+  Proof.
+    intros Hs Hx Hb Hr. destruct Hs as [t cs Hs | t cs Ht Hin].
+    2:{ apply (op_not_tight t cs x w r); assumption. }
+    destruct Hs.
+    - apply (op_not_tight t _ x w r); try assumption. apply op_in_variants; assumption.
+    - apply (op_not_tight t _ x w r); try assumption. apply op_in_variants; assumption.
+    - (* identifier *)
+      cbn [follow_bad fst] in Hb. cbn [app]. rewrite lex_ident_shape by assumption.
+      pose proof (tw_eats is_ident_char cs x w r ident_char_38 H0 Hx Hb) as Hlt.
+      destruct (take_while (length (cs ++ x)) is_ident_char (cs ++ x)) as [taken rest']. cbn [snd] in Hlt.
+      intros Heq. injection Heq as _ ->. lia.
+    - (* decimal integer *)
+      cbn [follow_bad fst snd] in Hb. rewrite (digits_not_hex_text c cs H0) in Hb.
+      pose proof (is_digit_range c H) as Hcr.
+      destruct (is_zero_text (c :: cs) && (w =? 120)) eqn:Ez.
+      + (* the text `0` directly before `x`: read as a 0x number *)
+        apply andb_prop in Ez. destruct Ez as [Ez Ew]. apply Z.eqb_eq in Ew. subst w.
+        destruct cs as [| d ds]; [|discriminate]. cbn [is_zero_text] in Ez. apply Z.eqb_eq in Ez. subst c.
+        assert (x = 120 :: r) as ->.
+        { unfold next_char in Hx. destruct x as [| y x']; [discriminate|].
+          destruct (Z.eq_dec y 38) as [-> | Hy].
+          - destruct (strip_prefix [38; 97; 109; 112; 59] (38 :: x')); [discriminate|].
+            destruct (strip_prefix [38; 108; 116; 59] (38 :: x')); [discriminate|].
+            destruct (strip_prefix [38; 103; 116; 59] (38 :: x')); discriminate.
+          - pose proof (next_char_plain y x' Hy) as Hp. unfold next_char in Hp. rewrite Hp in Hx.
+            injection Hx as -> ->. reflexivity. }
+        cbn [app]. rewrite lex_zero_x_shape.
+        pose proof (tw_total is_hex (length r) r) as Ht.
+        destruct (take_while (length r) is_hex r) as [ds r']. cbn [fst snd] in Ht.
+        destruct ds; [discriminate|]. cbv zeta. destruct (_ <=? I64_MAX); [|discriminate].
+        intros Heq. injection Heq as _ Hr'. rewrite Hr' in Ht. cbn [length] in Ht. lia.
+      + rewrite orb_false_r in Hb.
+        apply (num_eats cs x w r); try assumption; [apply digits_are_num; assumption|].
+        destruct (c =? 48) eqn:E48; [|reflexivity]. unfold eat_char.
+        destruct cs as [| d ds].
+        * cbn [app]. rewrite Hx. cbn [is_zero_text] in Ez. rewrite E48 in Ez. cbn [andb] in Ez.
+          rewrite Z.eqb_sym. rewrite Ez. reflexivity.
+        * cbn [forallb] in H0. apply andb_prop in H0. destruct H0 as [Hd _]. cbn [app].
+          pose proof (is_digit_range d Hd). rewrite next_char_plain by lia.
+          replace (120 =? d) with false by (symmetry; apply Z.eqb_neq; lia). reflexivity.
+    - (* 0x integer *)
+      cbn [follow_bad fst snd is_hex_text Z.eqb Pos.eqb andb] in Hb.
+      cbn [app]. rewrite lex_zero_x_shape.
+      change (h :: hs ++ x) with ((h :: hs) ++ x).
+      assert (Hall : forallb is_hex (h :: hs) = true) by (cbn [forallb]; rewrite H, H0; reflexivity).
+      pose proof (tw_eats is_hex (h :: hs) x w r hex_38 Hall Hx Hb) as Hlt.
+      destruct (take_while (length ((h :: hs) ++ x)) is_hex ((h :: hs) ++ x)) as [ds r']. cbn [snd] in Hlt.
+      destruct ds; [discriminate|]. cbv zeta. destruct (_ <=? I64_MAX); [|discriminate].
+      intros Heq. injection Heq as _ ->. lia.
+    - (* float starting with a digit *)
+      pose proof (is_digit_range c H) as Hcr.
+      cbn [follow_bad fst snd starts_dot] in Hb.
+      replace (c =? 46) with false in Hb by (symmetry; apply Z.eqb_neq; lia).
+      apply (num_eats cs x w r); try assumption.
+      destruct (c =? 48) eqn:E48; [|reflexivity]. unfold eat_char.
+      destruct cs as [| d ds].
+      * cbn in H1. replace (46 =? c) with false in H1 by (symmetry; apply Z.eqb_neq; lia). discriminate.
+      * cbn [forallb] in H0. apply andb_prop in H0. destruct H0 as [Hd _]. cbn [app].
+        rewrite next_char_plain by (apply num_char_38; exact Hd).
+        assert (d <> 120) by (unfold is_num_char, is_digit in Hd; intros ->; cbn in Hd; discriminate).
+        replace (120 =? d) with false by (symmetry; apply Z.eqb_neq; lia). reflexivity.
+    - (* .digits *)
+      cbn [follow_bad fst snd starts_dot Z.eqb Pos.eqb] in Hb.
+      cbn [app]. rewrite lex_dot_shape.
+      change (d :: ds ++ x) with ((d :: ds) ++ x).
+      assert (Hall : forallb is_digit (d :: ds) = true) by (cbn [forallb]; rewrite H, H0; reflexivity).
+      pose proof (tw_eats is_digit (d :: ds) x w r digit_38 Hall Hx Hb) as Hlt.
+      destruct (take_while (length ((d :: ds) ++ x)) is_digit ((d :: ds) ++ x)) as [taken r']. cbn [snd] in Hlt.
+      destruct taken; [discriminate|]. intros Heq. injection Heq as _ ->. lia.
+  Qed.
+
+  (* both directions, for two adjacent spelled tokens *)
+  Theorem needs_space_exact a b rest :
+    spelled fops a -> spelled fops b -> fol b rest -> hd_not59 rest ->
+    (needs_space a b = false <->
+     lex1 fops (snd a ++ snd b ++ rest) = Ok (Some (fst a, snd b ++ rest))).
+  Proof.
+    intros Ha Hb Hf H59. destruct a as [ta ca], b as [tb cb]. unfold spelled in *. cbn [fst snd] in *.
+    destruct (dec_first_spelled fops tb cb rest Hb Hf) as [r Hr].
+    pose proof (no_entity_spelled fops tb cb rest Hb Hf H59) as Hne.
+    split.
+    - intros Hn. apply lex_tight; [exact Ha|]. split; [|exact Hne].
+      unfold dec_hd_ok. rewrite Hr. exact Hn.
+    - intros Hlex. unfold needs_space. cbn [snd]. destruct (follow_bad (ta, ca) (dec_first cb)) eqn:E; [|reflexivity].
+      exfalso. apply (lex_not_tight ta ca (cb ++ rest) (dec_first cb) r Ha Hr E Hne). exact Hlex.
+  Qed.
+End Exact.
+
+(* the same with a spec-level side condition: b is the last token or is followed by white space *)
+Corollary needs_space_exact_ws fops a b rest :
+  spelled fops a -> spelled fops b ->
+  (rest = [] \/ exists w s, rest = w :: s /\ is_ws w) ->
+  (needs_space a b = false <->
+   lex1 fops (snd a ++ snd b ++ rest) = Ok (Some (fst a, snd b ++ rest))).
+Proof.
+  intros Ha Hb Hrest. apply needs_space_exact; try assumption.
+  - destruct Hrest as [-> | (w & s & -> & Hw)]; [apply fol_nil | apply fol_ws; exact Hw].
+  - destruct Hrest as [-> | (w & s & -> & Hw)]; [exact I | apply (ws_no_entity w s Hw)].
+Qed.
